@@ -10,14 +10,21 @@ ANCHORS = [("deap/base.py", ["Fitness", "ConstrainedFitness", "_violates_constra
 LEVEL = "proof"
 RULE = ("exhaustive: weights in {1,-1,2,-1/2}^n (n<=2; n<=3 thorough) x all pairs of value tuples over "
         "{0,1,2}^n x 6 operators and dominates on every slice; constrained: all kind pairs x flag vectors; "
-        "random: n<=5 dyadic weights/values. Non-trivial = distinct case whose two tuples are not identical "
+        "containers (tuple/list/deque/float64, float32 and int64 arrays x constructor/keyword/property x zero and "
+        "single-element tuples, both classes); integers beyond 2**53 and rationals with integer weights; finite weights x "
+        "finite values whose products saturate at +-inf; values an ulp apart; random: n<=5 dyadic weights/values. Non-trivial = distinct case whose two tuples are not identical "
         "(or a history / constrained case with at least one evaluated operand)")
 EXHAUSTIVE = {"quick": False, "thorough": False}
 TIME_BUDGET = {"quick": 60, "thorough": 900}
 TRUSTED = ["IEEE-754: products/quotients of the small dyadic inputs used here are exact, so the Rat model "
            "and the float implementation compute the same numbers",
            "CPython tuple comparison and slicing (modelled in Core/Py.lean, exercised by every line)"]
-ASSUMPTIONS = ["weights are non-zero finite numbers; values are finite numbers (no NaN)"]
+ASSUMPTIONS = ["weights are non-zero finite numbers; values are finite numbers (no NaN)",
+               "the read-back clause is claimed for values that are doubles (an integer beyond 2**53 is converted by the "
+               "true division of the getter, as documented for Python's `/`); such integers and exact rationals are used for "
+               "the comparison and dominance clauses only, with integer weights so that the products are exact",
+               "saturated stream: the model is driven with a strictly increasing image of the weighted values (inf -> 2^1100), "
+               "justified by C01.compare_order_invariant; the oracle compares the products themselves"]
 EXPLANATION = ("Theorems C01.* are proved for every linearly ordered field and all tuple lengths; "
                "the correspondence ties Core/Fitness.lean to deap.base on exactly-representable inputs.")
 
@@ -48,12 +55,23 @@ def bits(bs):
 _classes = {}
 
 
-def fit_class(weights, constrained=False):
-    key = (tuple(weights), constrained)
+def fit_class(weights, constrained=False, num="float"):
+    key = (tuple(weights), constrained, num)
     if key not in _classes:
         b = base.ConstrainedFitness if constrained else base.Fitness
-        _classes[key] = type("Fit", (b,), {"weights": tuple(float(w) for w in weights)})
+        cw = float if num in ("float", "raw") else int      # "int"/"frac": integer weights, exact products
+        _classes[key] = type("Fit", (b,), {"weights": tuple(cw(w) for w in weights)})
     return _classes[key]
+
+
+BIGINF = Fr(2) ** 1100        # stands for +inf in the order-isomorphic image of saturated weighted values
+
+
+def enc_sat(x):
+    import math
+    if math.isinf(x):
+        return BIGINF if x > 0 else -BIGINF
+    return Fr(x)
 
 
 def lex_lt(a, b):
@@ -74,24 +92,31 @@ def exact(t):
 def evaluate(d):
     k = d["k"]
     w = [fr(x) for x in d["w"]]
+    num = d.get("num", "float")
+    conv = {"float": float, "int": int, "frac": (lambda q: q)}.get(num, float)
+    if k == "sat":
+        return eval_sat(d)
+    if k == "ctor":
+        return eval_ctor(d)
     if k in ("cmp", "dom", "vals"):
-        F = fit_class(w)
+        F = fit_class(w, num=num)
         a = [fr(x) for x in d["a"]]
-        fa = F(tuple(float(x) for x in a))
+        fa = F(tuple(conv(x) for x in a))
         wa = wv(w, a)
         # (the internal representation `wvalues` is not part of the statement: it is compared with the model's
         #  through the `vals` protocol line only; the oracle below uses the independently computed `wa`)
     if k in ("cmp", "dom"):
         b = [fr(x) for x in d["b"]]
-        fb = F(tuple(float(x) for x in b))
+        fb = F(tuple(conv(x) for x in b))
         wb = wv(w, b)
+    numtag = "" if num == "float" else "/" + num
     if k == "cmp":
         got = [fa < fb, fa <= fb, fa > fb, fa >= fb, fa == fb, fa != fb]
         want = [lex_lt(wa, wb), lex_lt(wa, wb) or wa == wb, lex_lt(wb, wa), lex_lt(wb, wa) or wa == wb,
                 wa == wb, wa != wb]
         orc = None if got == want else "operators %s differ from lexicographic comparison %s of weighted values" % (bits(got), bits(want))
         return Case(d, ["C01 cmp %s %s %s" % (slist(w), slist(a), slist(b))], [bits(got)], orc,
-                    tag="cmp/n=%d" % len(w), nontrivial=(a != b))
+                    tag="cmp/n=%d%s" % (len(w), numtag), nontrivial=(a != b))
     if k == "dom":
         sl = slice(*d["slice"])
         ia = list(range(*sl.indices(len(wa))))
@@ -101,7 +126,7 @@ def evaluate(d):
         want = all(x >= y for x, y in zip(sa, sb)) and any(x > y for x, y in zip(sa, sb))
         orc = None if bool(got) == want else "dominates=%s but definition gives %s on slice %s" % (got, want, d["slice"])
         return Case(d, ["C01 dom %s %s %s %s %s" % (slist(w), slist(a), slist(b), ilist(ia), ilist(ib))],
-                    [bits([got])], orc, tag="dom/n=%d/len=%d" % (len(w), len(ia)), nontrivial=(a != b))
+                    [bits([got])], orc, tag="dom/n=%d/len=%d%s" % (len(w), len(ia), numtag), nontrivial=(a != b))
     if k == "vals":
         if d.get("mut"):
             # values assigned from a caller-owned mutable container that the caller changes afterwards:
@@ -228,6 +253,88 @@ def evaluate(d):
     raise ValueError(k)
 
 
+def eval_sat(d):
+    """Finite weights and finite values whose products saturate at +-inf: the weighted values are what the
+    statement compares, ties at infinity included.  The model is driven with an order-isomorphic image of the
+    weighted values (inf -> 2^1100, weights 1), the oracle compares the products computed here."""
+    w = [float(x) for x in d["w"]]
+    a = [float(x) for x in d["a"]]
+    b = [float(x) for x in d["b"]]
+    F = fit_class(tuple(d["w"]), num="raw")
+    fa, fb = F(tuple(a)), F(tuple(b))
+    wa = tuple(x * y for x, y in zip(a, w))
+    wb = tuple(x * y for x, y in zip(b, w))
+    ninf = sum(1 for x in wa + wb if x in (float("inf"), float("-inf")))
+    ea, eb = [enc_sat(x) for x in wa], [enc_sat(x) for x in wb]
+    ones = ["1"] * len(w)
+    got = [fa < fb, fa <= fb, fa > fb, fa >= fb, fa == fb, fa != fb]
+    want = [lex_lt(wa, wb), lex_lt(wa, wb) or wa == wb, lex_lt(wb, wa), lex_lt(wb, wa) or wa == wb,
+            wa == wb, wa != wb]
+    sl = slice(*d["slice"])
+    ia = list(range(*sl.indices(len(wa))))
+    gd = fa.dominates(fb, sl)
+    sa, sb = [wa[i] for i in ia], [wb[i] for i in ia]
+    wd = all(x >= y for x, y in zip(sa, sb)) and any(x > y for x, y in zip(sa, sb))
+    orc = None
+    if got != want:
+        orc = ("operators %s differ from lexicographic comparison %s of the weighted values %r / %r (weights %r)"
+               % (bits(got), bits(want), wa, wb, w))
+    elif bool(gd) != wd:
+        orc = "dominates=%s but the definition gives %s on weighted values %r / %r, slice %s" % (gd, wd, wa, wb, d["slice"])
+    return Case(d, ["C01 cmp %s %s %s" % (slist(ones), slist(ea), slist(eb)),
+                    "C01 dom %s %s %s %s %s" % (slist(ones), slist(ea), slist(eb), ilist(ia), ilist(ia))],
+                [bits(got), bits([gd])], orc, tag="sat/n=%d/inf=%d" % (len(w), min(ninf, 3)), nontrivial=(wa != wb or ninf > 0))
+
+
+def eval_ctor(d):
+    """Values handed over in any sized container, to the constructor or through `.values`: the fitness is valid,
+    reads the values back (weights +-1) and equals a fitness assigned the same values as a tuple."""
+    import numpy
+    w = [fr(x) for x in d["w"]]
+    a = [fr(x) for x in d["a"]]
+    cons = bool(d.get("constrained"))
+    F = fit_class(w, constrained=cons)
+    fl = tuple(float(x) for x in a)
+    box = {"tuple": tuple, "list": list, "array": lambda t: numpy.array(t, dtype=float),
+           "array32": lambda t: numpy.array(t, dtype=numpy.float32), "arrayint": lambda t: numpy.array(t, dtype=numpy.int64),
+           "deque": lambda t: __import__("collections").deque(t)}[d["box"]]
+    ref = F()
+    if a:
+        ref.values = fl
+    orc = None
+    try:
+        if d["via"] == "ctor":
+            f = F(box(fl))
+        elif d["via"] == "kw":
+            f = F(values=box(fl))
+        else:
+            f = F()
+            f.values = box(fl)
+    except Exception as e:
+        return Case(d, [], [], oracle="assigning legal values %r as %s (%s) raised %s: %s" % (fl, d["box"], d["via"], type(e).__name__, e),
+                    tag="ctor/raise")
+    want_valid = len(a) > 0
+    back = tuple(Fr(float(x)) for x in f.values)
+    if f.valid != want_valid:
+        orc = "fitness built from %s %r (%s) reports valid=%s" % (d["box"], fl, d["via"], f.valid)
+    elif want_valid and all(x in (1, -1) for x in w) and back != tuple(a):
+        orc = "values read back %r differ from assigned %r (weights +-1)" % (f.values, fl)
+    elif want_valid and (not (f == ref) or f != ref or f < ref or f > ref):
+        orc = "fitness built from %s %r (%s) does not compare equal to one assigned the same values" % (d["box"], fl, d["via"])
+    if not want_valid:
+        return Case(d, [], [], orc, tag="ctor/empty/%s" % d["box"])
+    cl = copy.deepcopy(f)
+    tagc = "ctor/%s/%s/%s" % (d["box"], d["via"], "zero" if all(x == 0 for x in a) else "nz")
+    if cons:     # (the constrained class defines no hash; the model's `vals` line describes the plain class)
+        if orc is None and (not (cl == f) or not cl.valid):
+            orc = "clone of a constrained fitness built from %s does not compare equal" % d["box"]
+        return Case(d, [], [], orc, tag=tagc + "/constrained")
+    out = "%s %s %s %s %s" % (slist(tuple(Fr(float(x)) for x in f.wvalues)), slist(back), bits([f.valid]),
+                              bits([cl == f]), bits([hash(cl) == hash(ref)]))
+    return Case(d, ["C01 vals %s %s" % (slist(w), slist(a))], [out], orc,
+                tag=tagc)
+
+
 WSET = ["1", "-1", "2", "-1/2"]
 ALL_SLICES = None
 
@@ -296,6 +403,49 @@ def generate(tier, rng, mult):
         for L in (1, 2, 3):
             for ops in itertools.product(atoms, repeat=L):
                 yield {"k": "chist", "w": w, "ops": list(ops)}
+    # containers: every sized container, constructor / keyword / property, zero and single-element tuples
+    for cons in (False, True):
+        for w, a in ((["-1"], ["3"]), (["-1"], ["0"]), (["1"], ["0"]), (["1"], ["-5/2"]), (["-1", "1"], ["0", "0"]),
+                     (["-1", "1"], ["4", "0"]), (["1", "-1", "-1"], ["1", "2", "3"]), (["2", "-1/2"], ["0", "6"]), (["1"], [])):
+            for box in ("tuple", "list", "array", "array32", "arrayint", "deque"):
+                if box == "arrayint" and any(Fr(x).denominator != 1 for x in a):
+                    continue
+                for via in (("ctor", "kw", "prop") if a else ("ctor", "kw")):
+                    yield {"k": "ctor", "w": w, "a": a, "box": box, "via": via, "constrained": cons}
+    # exact numbers that are not doubles: integers beyond 2**53 and rationals, integer weights (products exact)
+    B = 2 ** 53
+    for _ in range(150 * mult):
+        n = rng.randint(1, 3)
+        w = [str(rng.choice([1, -1, 1, -1, 2, -3])) for _ in range(n)]
+        if rng.random() < 0.6:
+            num = "int"
+            a = [str(rng.choice([1, -1]) * (rng.choice([B, 10 ** 17, 2 ** 64, 3 * 10 ** 30]) + rng.randint(0, 3))) for _ in range(n)]
+            b = list(a)
+            i = rng.randrange(n)
+            b[i] = str(int(b[i]) + rng.choice([1, -1, 2]))
+        else:
+            num = "frac"
+            a = [sfr(Fr(rng.randint(-9, 9), rng.choice([3, 7, 10 ** 20 + 1]))) for _ in range(n)]
+            b = list(a)
+            i = rng.randrange(n)
+            b[i] = sfr(Fr(b[i]) + Fr(rng.choice([1, -1]), 10 ** 20))
+        if rng.random() < 0.5:
+            a, b = b, a
+        yield {"k": "cmp", "w": w, "a": a, "b": b, "num": num}
+        yield {"k": "dom", "w": w, "a": a, "b": b, "slice": [None, None, None], "num": num}
+        if n > 1:
+            yield {"k": "dom", "w": w, "a": a, "b": b, "slice": rng.choice(slices_for(n)), "num": num, "explicit": True}
+    # finite weights x finite values whose weighted values saturate at +-inf (ties at infinity)
+    for _ in range(300 * mult):
+        n = rng.randint(1, 3)
+        w = [repr(rng.choice([10.0, -1e10, 1e200, 1e200, 10.0, 2.0, 1.0, -1.0])) for _ in range(n)]
+        pool = [1e308, 1.5e308, 2e307, 1e300, 3e299, 1e150, 1e120, 1e308, 1.7e308, 1.0, 0.0, 3.5]
+        a = [repr(rng.choice(pool) * rng.choice([1, -1])) for _ in range(n)]
+        # the second tuple: same sign per coordinate most of the time, so that both products saturate at the same
+        # infinity (a tie the comparison must see as a tie) while another coordinate decides
+        b = [x if rng.random() < 0.3 else repr(rng.choice(pool) * (rng.choice([1, 1, 1, -1]) if float(x) >= 0 else rng.choice([-1, -1, -1, 1])))
+             for x in a]
+        yield {"k": "sat", "w": w, "a": a, "b": b, "slice": rng.choice(slices_for(n))}
     # near-ties: values one or a few ulps apart (weights +-1 keep the products exact)
     import math
     for _ in range(400 * mult):
@@ -344,14 +494,14 @@ def generate(tier, rng, mult):
 
 
 def shrink(d):
-    if d["k"] in ("cmp", "dom", "vals") and len(d["w"]) > 1:
+    if d["k"] in ("cmp", "dom", "vals", "sat") and len(d["w"]) > 1:
         for i in range(len(d["w"])):
             e = dict(d)
             e["w"] = d["w"][:i] + d["w"][i + 1:]
             e["a"] = d["a"][:i] + d["a"][i + 1:]
             if "b" in d:
                 e["b"] = d["b"][:i] + d["b"][i + 1:]
-            if d["k"] == "dom":
+            if d["k"] in ("dom", "sat"):
                 e["slice"] = [None, None, None]
             yield e
     if d["k"] == "hist" and len(d["ops"]) > 1:
